@@ -536,4 +536,280 @@ theorem map_open_ring_witness :
     coordsCount (mapCoords id (.polygon ⟨[⟨0, 0⟩, ⟨1, 0⟩, ⟨0, 1⟩], []⟩)) = 4 := by
   decide
 
+/-! ## 4. `try_map_coords`: all-`Ok` agrees with `map_coords`; the first failure wins -/
+
+/-- [T] `collect::<Result<Vec<_>, _>>()` over a function that never fails is `map`. -/
+theorem tryMapList_ok {α β ε} (f : α → Except ε β) (h : α → β) (hf : ∀ a, f a = .ok (h a)) :
+    ∀ l : List α, tryMapList f l = .ok (l.map h)
+  | [] => rfl
+  | a :: as => by simp [tryMapList, hf a, tryMapList_ok f h hf as]
+
+private theorem poly_tryMap_ok {ε} (f : Pt → Except ε Pt) (h : Pt → Pt) (hf : ∀ p, f p = .ok (h p))
+    (p : Poly) : Poly.tryMap f p = .ok (Poly.map h p) := by
+  have h2 := tryMapList_ok (tryMapList f) (fun r : List Pt => r.map h) (tryMapList_ok f h hf) p.ints
+  simp only [Poly.tryMap, tryMapList_ok f h hf p.ext, h2, Poly.map]
+
+mutual
+/-- [T] if the fallible function never fails, `try_map_coords` returns `Ok` of exactly what
+`map_coords` returns with the underlying total function — for every geometry, Rect and
+Triangle re-normalisation included. -/
+theorem tryMap_ok {ε} (f : Pt → Except ε Pt) (h : Pt → Pt) (hf : ∀ p, f p = .ok (h p)) :
+    ∀ g : Geom, tryMapCoords f g = .ok (mapCoords h g)
+  | .point p => by simp [tryMapCoords, mapCoords, hf]
+  | .line a b => by simp [tryMapCoords, mapCoords, hf]
+  | .lineString cs => by simp [tryMapCoords, mapCoords, tryMapList_ok f h hf]
+  | .polygon p => by simp [tryMapCoords, mapCoords, poly_tryMap_ok f h hf]
+  | .multiPoint ps => by simp [tryMapCoords, mapCoords, tryMapList_ok f h hf]
+  | .multiLineString ls => by
+      have h2 := tryMapList_ok (tryMapList f) (fun r : List Pt => r.map h) (tryMapList_ok f h hf) ls
+      simp [tryMapCoords, mapCoords, h2]
+  | .multiPolygon ps => by
+      have h2 := tryMapList_ok (Poly.tryMap f) (Poly.map h) (poly_tryMap_ok f h hf) ps
+      simp [tryMapCoords, mapCoords, h2]
+  | .rect mn mx => by simp [tryMapCoords, mapCoords, hf]
+  | .triangle a b c => by simp [tryMapCoords, mapCoords, hf]
+  | .collection gs => by simp [tryMapCoords, mapCoords, tryMap_ok_list f h hf gs]
+theorem tryMap_ok_list {ε} (f : Pt → Except ε Pt) (h : Pt → Pt) (hf : ∀ p, f p = .ok (h p)) :
+    ∀ gs : List Geom, tryMapCoordsList f gs = .ok (mapCoordsList h gs)
+  | [] => rfl
+  | g :: gs => by
+      simp [tryMapCoordsList, mapCoordsList, tryMap_ok f h hf g, tryMap_ok_list f h hf gs]
+end
+
+example : tryMapCoords (ε := String) (fun p => .ok ⟨p.y, p.x⟩)
+      (.collection [.triangle ⟨1, 1⟩ ⟨6, 3⟩ ⟨3, 5⟩, .rect ⟨0, 0⟩ ⟨1, 2⟩]) =
+    .ok (mapCoords (fun p => ⟨p.y, p.x⟩) (.collection [.triangle ⟨1, 1⟩ ⟨6, 3⟩ ⟨3, 5⟩, .rect ⟨0, 0⟩ ⟨1, 2⟩])) :=
+  tryMap_ok _ _ (fun _ => rfl) _
+
+/-- [T] `try_map` over a sequence fails with `e` exactly when some element fails with `e` and
+every element before it succeeds: the first failure in iteration order wins. -/
+theorem tryMapList_first_err {α β ε} (f : α → Except ε β) (e : ε) :
+    ∀ l : List α, tryMapList f l = .error e ↔
+      ∃ pre x post, l = pre ++ x :: post ∧ (∀ y ∈ pre, ∃ z, f y = .ok z) ∧ f x = .error e
+  | [] => by simp [tryMapList]
+  | a :: as => by
+      have ih := tryMapList_first_err f e as
+      constructor
+      · intro h
+        simp only [tryMapList] at h
+        cases hfa : f a with
+        | error e' =>
+          simp only [hfa] at h
+          cases h
+          exact ⟨[], a, as, rfl, by simp, hfa⟩
+        | ok b =>
+          simp only [hfa] at h
+          cases hr : tryMapList f as with
+          | ok bs => simp [hr] at h
+          | error e' =>
+            simp only [hr] at h
+            cases h
+            obtain ⟨pre, x, post, rfl, hpre, hx⟩ := ih.1 hr
+            refine ⟨a :: pre, x, post, rfl, ?_, hx⟩
+            intro y hy
+            rcases List.mem_cons.1 hy with rfl | hy
+            · exact ⟨b, hfa⟩
+            · exact hpre y hy
+      · rintro ⟨pre, x, post, hl, hpre, hx⟩
+        cases pre with
+        | nil =>
+          simp only [List.nil_append, List.cons.injEq] at hl
+          obtain ⟨rfl, rfl⟩ := hl
+          simp [tryMapList, hx]
+        | cons p pre =>
+          simp only [List.cons_append, List.cons.injEq] at hl
+          obtain ⟨rfl, rfl⟩ := hl
+          obtain ⟨z, hz⟩ := hpre a (List.mem_cons_self ..)
+          have : tryMapList f (pre ++ x :: post) = .error e :=
+            ih.2 ⟨pre, x, post, rfl, fun y hy => hpre y (List.mem_cons_of_mem _ hy), hx⟩
+          simp [tryMapList, hz, this]
+
+/-- [T] on success nothing failed and the result has the same length. -/
+theorem tryMapList_ok_iff {α β ε} (f : α → Except ε β) :
+    ∀ (l : List α) (r : List β), tryMapList f l = .ok r ↔ List.Forall₂ (fun a b => f a = .ok b) l r
+  | [], r => by
+      simp only [tryMapList, Except.ok.injEq]
+      constructor
+      · rintro rfl; exact .nil
+      · intro h; cases h; rfl
+  | a :: as, r => by
+      simp only [tryMapList]
+      cases hfa : f a with
+      | error e' =>
+        simp only [reduceCtorEq, false_iff]
+        intro h; cases h with | cons h1 _ => simp [hfa] at h1
+      | ok b =>
+        cases hr : tryMapList f as with
+        | error e' =>
+          simp only [reduceCtorEq, false_iff]
+          intro h
+          cases h with
+          | cons h1 h2 =>
+            have := (tryMapList_ok_iff f as _).2 h2
+            simp [hr] at this
+        | ok bs =>
+          simp only [Except.ok.injEq]
+          constructor
+          · rintro rfl
+            exact .cons hfa ((tryMapList_ok_iff f as bs).1 hr)
+          · intro h
+            cases h with
+            | cons h1 h2 =>
+              have := (tryMapList_ok_iff f as _).2 h2
+              rw [hr] at this
+              rw [hfa] at h1
+              cases this; cases h1; rfl
+
+mutual
+/-- The coordinates that `try_map_coords` feeds to the function, in order: the traversal, except
+for `Rect`, which feeds its two stored corners `min`, `max`. -/
+def fed : Geom → List Pt
+  | .collection gs => fedList gs
+  | .rect mn mx => [mn, mx]
+  | .point p => [p]
+  | .line a b => [a, b]
+  | .lineString cs => cs
+  | .polygon p => p.coords
+  | .multiPoint ps => ps
+  | .multiLineString ls => ls.flatten
+  | .multiPolygon ps => (ps.map Poly.coords).flatten
+  | .triangle a b c => [a, b, c]
+def fedList : List Geom → List Pt
+  | [] => []
+  | g :: gs => fed g ++ fedList gs
+end
+
+private theorem tryMapList_err_mem {α β ε} {f : α → Except ε β} {e : ε} {l : List α}
+    (h : tryMapList f l = .error e) : ∃ x ∈ l, f x = .error e := by
+  obtain ⟨pre, x, post, rfl, _, hx⟩ := (tryMapList_first_err f e l).1 h
+  exact ⟨x, by simp, hx⟩
+
+private theorem tryMapRings_err_mem {ε} {f : Pt → Except ε Pt} {e : ε} {ls : List (List Pt)}
+    (h : tryMapList (tryMapList f) ls = .error e) : ∃ x ∈ ls.flatten, f x = .error e := by
+  obtain ⟨r, hr, hx⟩ := tryMapList_err_mem h
+  obtain ⟨x, hx', hfx⟩ := tryMapList_err_mem hx
+  exact ⟨x, List.mem_flatten.2 ⟨r, hr, hx'⟩, hfx⟩
+
+private theorem poly_tryMap_err_mem {ε} {f : Pt → Except ε Pt} {e : ε} {p : Poly}
+    (h : Poly.tryMap f p = .error e) : ∃ x ∈ p.coords, f x = .error e := by
+  simp only [Poly.tryMap] at h
+  cases h1 : tryMapList f p.ext with
+  | error e' =>
+    simp only [h1] at h; cases h
+    obtain ⟨x, hx, hfx⟩ := tryMapList_err_mem h1
+    exact ⟨x, by simp [Poly.coords, hx], hfx⟩
+  | ok e' =>
+    simp only [h1] at h
+    cases h2 : tryMapList (tryMapList f) p.ints with
+    | error e'' =>
+      simp only [h2] at h; cases h
+      obtain ⟨x, hx, hfx⟩ := tryMapRings_err_mem h2
+      exact ⟨x, by simp only [Poly.coords, List.mem_append]; exact Or.inr hx, hfx⟩
+    | ok is' => simp [h2] at h
+
+mutual
+/-- [T] an `Err` of `try_map_coords` is the `Err` the function returned on one of the
+coordinates it was fed (no error is invented, none is replaced). -/
+theorem tryMap_err_mem {ε} (f : Pt → Except ε Pt) (e : ε) :
+    ∀ g : Geom, tryMapCoords f g = .error e → ∃ p ∈ fed g, f p = .error e
+  | .point p, h => by
+      simp only [tryMapCoords] at h
+      cases hp : f p with
+      | error e' => simp only [hp] at h; cases h; exact ⟨p, by simp [fed], hp⟩
+      | ok q => simp [hp] at h
+  | .line a b, h => by
+      simp only [tryMapCoords] at h
+      cases ha : f a with
+      | error e' => simp only [ha] at h; cases h; exact ⟨a, by simp [fed], ha⟩
+      | ok a' =>
+        simp only [ha] at h
+        cases hb : f b with
+        | error e' => simp only [hb] at h; cases h; exact ⟨b, by simp [fed], hb⟩
+        | ok b' => simp [hb] at h
+  | .lineString cs, h => by
+      simp only [tryMapCoords] at h
+      cases hc : tryMapList f cs with
+      | error e' => simp only [hc] at h; cases h; simpa [fed] using tryMapList_err_mem hc
+      | ok r => simp [hc] at h
+  | .polygon p, h => by
+      simp only [tryMapCoords] at h
+      cases hc : Poly.tryMap f p with
+      | error e' => simp only [hc] at h; cases h; simpa [fed] using poly_tryMap_err_mem hc
+      | ok r => simp [hc] at h
+  | .multiPoint cs, h => by
+      simp only [tryMapCoords] at h
+      cases hc : tryMapList f cs with
+      | error e' => simp only [hc] at h; cases h; simpa [fed] using tryMapList_err_mem hc
+      | ok r => simp [hc] at h
+  | .multiLineString ls, h => by
+      simp only [tryMapCoords] at h
+      cases hc : tryMapList (tryMapList f) ls with
+      | error e' =>
+        simp only [hc] at h; cases h
+        simpa only [fed] using tryMapRings_err_mem hc
+      | ok r => simp [hc] at h
+  | .multiPolygon ps, h => by
+      simp only [tryMapCoords] at h
+      cases hc : tryMapList (Poly.tryMap f) ps with
+      | error e' =>
+        simp only [hc] at h; cases h
+        obtain ⟨p, hp, hpe⟩ := tryMapList_err_mem hc
+        obtain ⟨x, hx, hfx⟩ := poly_tryMap_err_mem hpe
+        exact ⟨x, by simp only [fed, List.mem_flatten, List.mem_map]; exact ⟨_, ⟨p, hp, rfl⟩, hx⟩, hfx⟩
+      | ok r => simp [hc] at h
+  | .rect mn mx, h => by
+      simp only [tryMapCoords] at h
+      cases ha : f mn with
+      | error e' => simp only [ha] at h; cases h; exact ⟨mn, by simp [fed], ha⟩
+      | ok a' =>
+        simp only [ha] at h
+        cases hb : f mx with
+        | error e' => simp only [hb] at h; cases h; exact ⟨mx, by simp [fed], hb⟩
+        | ok b' => simp [hb] at h
+  | .triangle a b c, h => by
+      simp only [tryMapCoords] at h
+      cases ha : f a with
+      | error e' => simp only [ha] at h; cases h; exact ⟨a, by simp [fed], ha⟩
+      | ok a' =>
+        simp only [ha] at h
+        cases hb : f b with
+        | error e' => simp only [hb] at h; cases h; exact ⟨b, by simp [fed], hb⟩
+        | ok b' =>
+          simp only [hb] at h
+          cases hc : f c with
+          | error e' => simp only [hc] at h; cases h; exact ⟨c, by simp [fed], hc⟩
+          | ok c' => simp [hc] at h
+  | .collection gs, h => by
+      simp only [tryMapCoords] at h
+      cases hc : tryMapCoordsList f gs with
+      | error e' =>
+        simp only [hc] at h; cases h
+        simpa only [fed] using tryMap_err_mem_list f e gs hc
+      | ok r => simp [hc] at h
+theorem tryMap_err_mem_list {ε} (f : Pt → Except ε Pt) (e : ε) :
+    ∀ gs : List Geom, tryMapCoordsList f gs = .error e → ∃ p ∈ fedList gs, f p = .error e
+  | [], h => by simp [tryMapCoordsList] at h
+  | g :: gs, h => by
+      simp only [tryMapCoordsList] at h
+      cases hg : tryMapCoords f g with
+      | error e' =>
+        simp only [hg] at h; cases h
+        obtain ⟨p, hp, hfp⟩ := tryMap_err_mem f e g hg
+        exact ⟨p, by simp [fedList, hp], hfp⟩
+      | ok g' =>
+        simp only [hg] at h
+        cases hgs : tryMapCoordsList f gs with
+        | error e' =>
+          simp only [hgs] at h; cases h
+          obtain ⟨p, hp, hfp⟩ := tryMap_err_mem_list f e gs hgs
+          exact ⟨p, by simp [fedList, hp], hfp⟩
+        | ok gs' => simp [hgs] at h
+end
+
+/-- Non-vacuity: a function failing on negative x; the first failing coordinate in traversal
+order, (-1, 0), determines the error, not the later (-2, 5). -/
+example : tryMapCoords (fun p => if p.x < 0 then .error p else .ok p)
+      (.collection [.point ⟨1, 1⟩, .lineString [⟨2, 0⟩, ⟨-1, 0⟩, ⟨-2, 5⟩]]) = .error ⟨-1, 0⟩ := by
+  norm_num [tryMapCoords, tryMapCoordsList, tryMapList]
+
 end Geo.Proofs.C19
